@@ -1,36 +1,78 @@
 (* C05 - Client: every operation completes exactly once under cancel, Close and failure.
-   Property theorems only; every proof is `exact <lemma>` (lemmas in coq/cli/CliC05.v, CliProofs.v;
-   invariants in coq/cli/CliInv.v, CliRet.v). *)
+   Property theorems only; every proof is `exact <lemma>` (lemmas in coq/cli/CliC05.v, CliProofs.v, CliLive.v,
+   CliHist.v, CliWg.v; invariants in coq/cli/CliInv.v, CliRet.v, CliCtx.v, CliOps.v, CliHist.v, CliWg.v). *)
 From Coq Require Import List NArith ZArith Bool Arith.
 From RecordUpdate Require Import RecordUpdate.
-From JV Require Import Bytes Msg CliModel CliLemmas CliInv CliRet CliProofs CliC05.
+From JV Require Import Bytes Msg CliModel CliLemmas CliInv CliRet CliProofs CliC05 CliCtx CliOps CliHist CliLive CliWg.
 Import ListNotations.
 
-(* in every history of every schedule each operation (Call, Batch, Notify, Close) returns at most once,
-   with one value, and is then finished; an unfinished operation has not returned.
-   FULL STATEMENT NOT YET PROVED (hence _partial): additionally "quiescent s = true -> every operation
-   whose slots are all written, or whose context ended, or issued on a stopped client, has returned"
-   (the liveness-at-quiescence half).  Missing: the invariant relating watcher states, slot contexts and
-   the pending set (a blocked watcher has a live context; stop cancels every pending slot). The
-   correspondence check observes this half (parked goroutines, goroutine count, exactly-one return). *)
-Theorem c05_returns_once_partial : forall c tr s, traces_to c tr s ->
+(* EXACTLY ONE RETURN (full statement).  In every history of every schedule each operation (Call, Batch, Notify,
+   Close) returns at most once, with one value, and is then finished; an unfinished operation has not returned.
+   Liveness at quiescence ([quiescent s]: no goroutine is parked at a scheduling point and no unhooked progress is
+   possible): an operation that has not returned is either [blocked_call] - a Call/Batch in wait() on a request
+   that is still pending and unwritten, whose watcher is blocked on a live context, whose caller's context has not
+   ended, on a client that has not stopped - or [blocked_close] - a Close in done.Wait() with wg <> 0 (reader,
+   delivery or callback goroutines still alive).  Hence nothing blocks once the replies were delivered (all slots
+   written), or the context ended, or the client stopped: such an operation has returned, exactly once; and a Close
+   has returned exactly once as soon as wg = 0. *)
+Theorem c05_returns_once : forall c tr s, traces_to c tr s ->
   (forall n, ret_count n (hist s) <= 1)
   /\ (forall n r r', In (ORet n r) (hist s) -> In (ORet n r') (hist s) -> r = r')
   /\ (forall n r, In (ORet n r) (hist s) -> exists o, op_at s n = Some o /\ o_ret o = Some r /\ o_pc o = PDone)
-  /\ (forall n o, op_at s n = Some o -> o_pc o <> PDone -> ret_count n (hist s) = 0).
-Proof. exact returns_once. Qed.
-Print Assumptions c05_returns_once_partial.
+  /\ (forall n o, op_at s n = Some o -> o_pc o <> PDone -> ret_count n (hist s) = 0)
+  /\ (quiescent s = true ->
+        (forall n o, op_at s n = Some o -> o_pc o <> PDone -> blocked_call s o \/ blocked_close s o)
+        /\ (forall n o, op_at s n = Some o -> o_kind o <> KClose ->
+              (forall i, In i (o_slots o) -> slot_val s i <> None) \/ o_ctx o <> None \/ err s <> None ->
+              o_pc o = PDone /\ ret_count n (hist s) = 1)
+        /\ (forall n o, op_at s n = Some o -> o_kind o = KClose -> wg s = 0 -> o_pc o = PDone /\ ret_count n (hist s) = 1)).
+Proof. exact returns_once_full. Qed.
+Print Assumptions c05_returns_once.
 
-(* the watcher's critical section in any reachable state: too late (request no longer pending) ->
-   nothing written, no OnCancel; otherwise it removes exactly its own entry, writes the context's own
-   error (context.Canceled / DeadlineExceeded by the slot context's first cause; an internal error after
-   a transport failure), and OnCancel runs exactly once in that window iff configured.
-   FULL STATEMENT NOT YET PROVED (hence _partial): "over every trace the number of OOnCancel id in the
-   history is 1 if the slot with that id was written by its watcher and 0 otherwise; the value returned
-   for an operation is the reply if the delivery removed the entry and this error if the watcher did".
-   Missing: the global counting invariant over the history (no other label emits OOnCancel is by
-   inspection of step_raw) and the stability of written slots. *)
-Theorem c05_watch_outcome_partial : forall c tr s, traces_to c tr s -> forall i sl s',
+(* Close at quiescence: the wait group counts exactly the reader, the parked deliveries and the live callback
+   handlers; a Close still blocked in done.Wait() ([blocked_close], see c05_returns_once) is waiting for a reader that
+   is blocked in Recv with nothing to read, on a channel whose Close does not unblock Recv (the peer has not closed
+   its end) - so on a channel whose Close unblocks Recv, or once the reader has exited, no Close is left blocked *)
+Theorem c05_close_returns : forall c tr s, traces_to c tr s -> quiescent s = true ->
+  wg s = rdc s + cnt deliv_parked (delivs s) + cnt cb_alive (cbs s)
+  /\ (forall n o, op_at s n = Some o -> blocked_close s o -> rd s = RIdle /\ ch_in s = [] /\ c_unblock s = false /\ err s <> None)
+  /\ (forall n o b, op_at s n = Some o -> o_pc o = PCloseWait b -> c_unblock s = true \/ rd s = RExited -> False).
+Proof. exact close_returns. Qed.
+Print Assumptions c05_close_returns.
+
+(* OUTCOME AND ONCANCEL (full statement, global counting form, every trace).
+   For every allocated id the number of OnCancel observations in the whole history is 1 if the hook is configured
+   and the slot with that id was written by its watcher, and 0 otherwise (never for an answered request); it is 0
+   for ids that were never allocated; the hook sees the watcher's value.  The value returned by a Call is
+   call_res of its slot's value v: if v came from a delivery (v_src = SPeer j k) it is the payload of member k of
+   inbound record j, whose id is the request's id, and OnCancel never ran for it; if it came from the watcher
+   (SWatch) then the slot's context ended with cause cw because the caller's context ended with cw or the client
+   stopped ([cause]), v is the error of that cause - context.Canceled / DeadlineExceeded by cw, or an internal
+   error carrying an interesting stop cause ([wval]) - and OnCancel ran exactly once iff configured. *)
+Theorem c05_watch_outcome : forall c tr s, traces_to c tr s ->
+  (forall i sl, slot_at s i = Some sl ->
+     oc_count (id_text (sl_id sl)) (hist s) = if c_oncancel s && watch_written sl then 1 else 0)
+  /\ (forall key, (forall i sl, slot_at s i = Some sl -> id_text (sl_id sl) <> key) -> oc_count key (hist s) = 0)
+  /\ (forall key e, In (OOnCancel key e) (hist s) ->
+        exists i sl v, slot_at s i = Some sl /\ id_text (sl_id sl) = key /\ sl_buf sl = Some v /\ v_src v = SWatch /\ v_err v = e)
+  /\ (forall n r, In (ORet n (RetCall r)) (hist s) ->
+        exists o i rest sl v, op_at s n = Some o /\ o_slots o = i :: rest /\ slot_at s i = Some sl /\ sl_buf sl = Some v
+          /\ r = call_res v
+          /\ match v_src v with
+             | SPeer j k => exists m, member_at s j k m /\ is_req_or_notif m = false
+                                      /\ fix_id (j_id m) = id_text (sl_id sl) /\ v = val_of_member j k m
+                                      /\ oc_count (id_text (sl_id sl)) (hist s) = 0
+             | SWatch => exists cw, sl_pctx sl = Some cw /\ cause s sl cw /\ wval s sl cw v
+                                    /\ oc_count (id_text (sl_id sl)) (hist s) = if c_oncancel s then 1 else 0
+             end).
+Proof. exact watch_outcome. Qed.
+Print Assumptions c05_watch_outcome.
+
+(* local form (ingredient of c05_watch_outcome): the watcher's critical section in any reachable state: too late
+   (request no longer pending) -> nothing written, no OnCancel; otherwise it removes exactly its own entry, writes
+   the context's own error (context.Canceled / DeadlineExceeded by the slot context's first cause; an internal
+   error after a transport failure), and OnCancel runs exactly once in that window iff configured *)
+Theorem c05_watch_local : forall c tr s, traces_to c tr s -> forall i sl s',
   slot_at s i = Some sl -> step_raw s (LRelWatch i) = Some s' ->
   sl_watch sl = WParked
   /\ (assoc (id_text (sl_id sl)) (pending s) = None ->
@@ -42,7 +84,7 @@ Theorem c05_watch_outcome_partial : forall c tr s, traces_to c tr s -> forall i 
         /\ assoc (id_text (sl_id sl)) (pending s') = None
         /\ hist s' = hist s ++ (if c_oncancel s then [OOnCancel (id_text (sl_id sl)) (Some e)] else [])).
 Proof. exact (fun c tr s T i sl s' => watch_spec s i sl s' (inv1_reach c s (traces_reach c tr s T))). Qed.
-Print Assumptions c05_watch_outcome_partial.
+Print Assumptions c05_watch_local.
 
 (* Call maps the watcher's error back to the context sentinel *)
 Theorem c05_ctx_sentinel : forall e w,
